@@ -16,7 +16,7 @@ EVAL_RULE = ("type-directed (expression, datum) pairs from one PRNG seed: data f
 PROPS = {
     "C01": dict(
         title="Evaluate returns what the expression denotes",
-        level="proof", lean=['Ties.Coerce', 'Ties.Dispatch', 'Ties.EvaluateShape'], theorems={},
+        level="proof", lean=['Props.C01', 'Props.C06', 'Ties.Coerce', 'Ties.Dispatch', 'Ties.EvaluateShape'], theorems={},
         frags=[("eval", 2500, 60000), ("scalar-eq", 150, 3000), ("absent", 60, 800), ("unroll", 200, 4000), ("nested", 200, 5000)],
         finding_props=["C01"], rule=EVAL_RULE,
     ),
@@ -28,15 +28,15 @@ PROPS = {
                 frags=[("neg", 500, 15000)], rule="(selector, literal, datum) triples incl. absent keys, ill-typed literals; each positive operator against its negation, not(...), and contains vs in"),
     "C05": dict(title="absent keys / unknown value", level="proof", lean=['Props.C05', 'Ties.Dispatch'], theorems={},
                 frags=[("absent", 120, 2500), ("hist", 60, 1500)], rule="JSON-like documents; absent key below every map-valued path x 8 operators x {no unknown, unknown scalar}; error paths; neutral unknown"),
-    "C06": dict(pinned=True, title="any/all fold", level="proof", lean=['Ties.PinnedGrammar'], theorems={},
+    "C06": dict(pinned=True, title="any/all fold", level="proof", lean=['Props.C06', 'Ties.PinnedGrammar'], theorems={},
                 frags=[("unroll", 600, 15000), ("nested", 400, 10000), ("eval", 800, 15000), ("parse-deriv", 300, 6000)], rule="quantifiers over list paths of generated data, four binding modes, names colliding with the collection path / top-level fields; compared with the unrolled or/and chain on the real code"),
     "C07": dict(pinned=True, title="selector spellings interchangeable", level="proof", lean=['Props.C16Lex', 'Ties.PinnedGrammar'], theorems={},
                 frags=[("spelling", 500, 12000), ("parse-deriv", 300, 6000)], rule="expressions whose paths are spellable both ways, rendered all-dotted/bracket, all-pointer and mixed"),
     "C08": dict(title="hidden fields unobservable", level="proof", lean=['Props.C08'], theorems={},
                 frags=[("hidden", 500, 12000), ("opts", 10, 200)], rule="pairs of data equal on visible fields (hidden = unexported or tagged '-' under the active tag name), expressions naming hidden fields; both tag names; filter positions"),
-    "C09": dict(title="Evaluate is total", level="proof", lean=['Props.C09', 'Props.C03', 'Ties.EvaluateShape', 'Ties.Dispatch'], theorems={},
+    "C09": dict(title="Evaluate is total", level="proof", lean=['Props.C09', 'Props.C10', 'Props.C03', 'Ties.EvaluateShape', 'Ties.Dispatch'], theorems={},
                 frags=[("matrix", 300, 15000), ("eval", 1500, 40000)], rule="complete operator x value-shape matrix (every reflect kind incl. invalid, nil/odd elements in containers) x 3 placements, plus random nesting"),
-    "C10": dict(pinned=True, title="creation total on arbitrary bytes", level="proof", lean=['Ties.PinnedGrammar', 'Ties.Options'], theorems={},
+    "C10": dict(pinned=True, title="creation total on arbitrary bytes", level="proof", lean=['Props.C10', 'Props.C09', 'Ties.PinnedGrammar', 'Ties.Options'], theorems={},
                 frags=[("parse-bytes", 1500, 60000), ("parse-tokens", 1500, 100000)], rule="byte-level mutations incl. invalid UTF-8/NUL/unterminated quotes; exhaustive token sequences; shape oracle on CreateEvaluator/CreateFilter/Parse"),
     "C11": dict(title="max-expressions budget exact", level="proof", lean=['Props.C11', 'Ties.Options'], theorems={},
                 frags=[("budget", 60, 1200)], rule="inputs (valid, invalid, nested parentheses) x budgets N-3..N+3, 1..3, geometric sweep to 2^22, 2^40, 2^63, 2^64-1; both option spellings; step counter compared exactly with the model"),
